@@ -210,7 +210,44 @@ def fill_results_normalised():
     return None
 
 
+def entropy_with_zero_schmidt_values():
+    """bonds with exactly zero Schmidt values (zero-padded / direct-sum MPS): 0 log 0 = 0, the entropy is finite
+    and equals the dense value"""
+    import math
+    from emu_mps import MPS
+    dtc = torch.complex128
+    # product state |r r r> with bond dimension 2, second channel identically zero
+    f = []
+    for k in range(3):
+        t = torch.zeros(1 if k == 0 else 2, 2, 1 if k == 2 else 2, dtype=dtc)
+        t[0, 1, 0] = 1.0
+        f.append(t)
+    st = MPS([t.clone() for t in f], eigenstates=("r", "g"), num_gpus_to_use=0)
+    for site in (0, 1):
+        e = float(st.entanglement_entropy(site))
+        if not math.isfinite(e) or abs(e) > 1e-9:
+            return f"product state with a zero-padded bond: entanglement_entropy({site}) = {e} (dense value 0)"
+    # (|rrr> + |ggg>)/sqrt(2) embedded in bond dimension 3 with an unused channel: log 2 at every cut
+    g = []
+    for k in range(3):
+        t = torch.zeros(1 if k == 0 else 3, 2, 1 if k == 2 else 3, dtype=dtc)
+        for b in range(2):
+            t[0 if k == 0 else b, b, 0 if k == 2 else b] = 1.0
+        g.append(t)
+    g[0] = g[0] / math.sqrt(2)
+    st = MPS([t.clone() for t in g], eigenstates=("r", "g"), num_gpus_to_use=0)
+    for site in (0, 1):
+        e = float(st.entanglement_entropy(site))
+        if not math.isfinite(e) or abs(e - math.log(2)) > 1e-9:
+            return f"GHZ state with an unused bond channel: entanglement_entropy({site}) = {e} (dense value log 2 = {math.log(2):.6f})"
+    return None
+
+
 def main():
+    bad1 = entropy_with_zero_schmidt_values()
+    if bad1:
+        print("REPRODUCED: " + bad1)
+        return 1
     bad0 = fill_results_normalised()
     if bad0:
         print("REPRODUCED: " + bad0)
